@@ -393,7 +393,18 @@ fn cache_key_stream(query: &Query, key_name: &Name, ty: RecordType, recs: &[Reco
     for r in recs.iter().chain(sigs) {
         r.name.hash(&mut h);
         r.dns_class.hash(&mut h);
-        r.data.hash(&mut h);
+        // mirrors hash_rdata(): the uncompressed wire RDATA, letter case preserved
+        let mut bytes = Vec::new();
+        let ok = {
+            let mut enc = hickory_proto::serialize::binary::BinEncoder::new(&mut bytes);
+            enc.name_encoding = hickory_proto::serialize::binary::NameEncoding::Uncompressed;
+            hickory_proto::serialize::binary::BinEncodable::emit(&r.data, &mut enc).is_ok()
+        };
+        if ok {
+            bytes.hash(&mut h)
+        } else {
+            r.data.hash(&mut h)
+        }
     }
     h.0
 }
